@@ -14,9 +14,12 @@ WORKERS = {"quick": 8, "thorough": 16}
 RULE = (
     "case = (node type in computer/server/switch/router/firewall/wireless-router, start_up_duration, shut_down_duration, "
     "initial state, op sequence over {shutdown, startup, reset, tick, service request, file request, incoming ping, "
-    "incoming ARP}) on a subject node 's' with an always-on peer 'p' (and a second peer 'q' behind network nodes). "
+    "incoming ARP; in the random part and the families also application requests and API-level operations that end in "
+    "NetworkInterface.enable()}) on a subject node 's' with an always-on peer 'p' (and a second peer 'q' behind network nodes). "
     "Exhaustive part: every sequence of the 8-symbol alphabet to depth 3 (quick) / 4 (thorough) that contains at least one "
     "shutdown or reset (sequences without one never leave ON), plus every sequence one op shorter on a node declared OFF, "
+    "plus two enumerated families (whole power cycles after preparing PAUSED/STOPPED/DISABLED services and CLOSED "
+    "applications; each enable()-reaching API operation once in each non-ON state), "
     "for every node type and every duration pair in {0,1}^2 "
     "(quick) / {0,1,2}^2 (thorough); random part: Hypothesis sequences to depth 25 (blocks 'power request + 0..8 ticks / "
     "foreign operations') with durations in {0..4}^2 and the initial state ON or OFF. After every op the reference power "
@@ -43,6 +46,12 @@ ASSUMPTIONS = [
     "is reported the harness disables the subject's interfaces itself (what the proposed fix does) so that the search "
     "continues behind the defect; counted as excluded:<id>",
     "ping success while ON is measured (labels) but not asserted: the property does not state it",
+    "back to ON: power_on 'starts all Services and Applications' (base_hardware.rst) => every service that was RUNNING, "
+    "PAUSED or STOPPED and every application that was RUNNING or CLOSED when the node left ON is RUNNING afterwards; "
+    "DISABLED / RESTARTING / INSTALLING software is not asserted either way",
+    "API-level 'other operations' (interface.enable(), Router.enable_port, Firewall/WirelessRouter configure_*_port, "
+    "Network.connect of a spare interface to an extra unlinked computer 'x', NetworkInterface.setup_for_episode) are "
+    "public methods documented to refuse a node that is not powered on; they are issued in every power state",
 ]
 
 KINDS = ["computer", "server", "switch", "router", "firewall", "wireless-router"]
